@@ -674,16 +674,27 @@ impl Program {
     }
 
     pub fn is_seven_bit_safe(&self, entrypoints: HashMap<Char, u16>) -> bool {
+        // PLtoTF.2014.110: a step is only looked at if it is the first one of its program
+        // for its right character (later ones never apply), the boundary character counts
+        // as seven-bit input, and so does the boundary character's own program.
         entrypoints
             .into_iter()
             .filter(|(c, _)| c.is_seven_bit())
-            .flat_map(|(_, e)| self.instructions_for_entrypoint(e))
-            .filter(|(_, instruction)| instruction.right_char.is_seven_bit())
-            .filter_map(|(_, instruction)| match instruction.operation {
-                Operation::Ligature { char_to_insert, .. } => Some(char_to_insert),
-                _ => None,
+            .map(|(_, e)| e)
+            .chain(self.left_boundary_char_entrypoint)
+            .all(|e| {
+                let mut seen = HashSet::new();
+                self.instructions_for_entrypoint(e)
+                    .filter(|(_, instruction)| seen.insert(instruction.right_char))
+                    .filter(|(_, instruction)| {
+                        instruction.right_char.is_seven_bit()
+                            || Some(instruction.right_char) == self.right_boundary_char
+                    })
+                    .all(|(_, instruction)| match instruction.operation {
+                        Operation::Ligature { char_to_insert, .. } => char_to_insert.is_seven_bit(),
+                        _ => true,
+                    })
             })
-            .all(|c| c.is_seven_bit())
     }
 
     pub fn validate_and_fix<I, T>(
